@@ -4,8 +4,8 @@
    under a `_partial` twin (see DESIGN.md section 9). *)
 From Coq Require Import List String Bool.
 Import ListNotations.
-From DI Require Import Syntax Tokens Bounds Subs Superset Substitute Spec RustSem Dispatch Examples.
-From DI.proofs Require Import Basics SupersetSound SupersetExact SubstituteProofs BoundsProofs DispatchProofs.
+From DI Require Import Syntax Tokens Bounds Subs Superset Substitute Spec RustSem Group Dispatch Examples ExamplesGroup.
+From DI.proofs Require Import Basics SupersetSound SupersetExact SubstituteProofs BoundsProofs DispatchProofs GroupProofs.
 
 (* ===================================================================================== *)
 (* C09 -- header generalisation is exact first-order matching                             *)
@@ -178,3 +178,30 @@ Theorem C01_dispatch_sound : forall (Q V : Type) keyvals (members : list (member
   forall m', In m' members -> m_applies Q V m' q = true -> m' = m.
 Proof. exact dispatch_sound. Qed.
 Print Assumptions C01_dispatch_sound.
+
+(* ===================================================================================== *)
+(* C11 -- family formation.  The search is validated per grouping by the checker gi_check   *)
+(* (run by the check on every grouping the macro reports); the checker is sound:           *)
+(* ===================================================================================== *)
+
+(* gi_check = true implies: the members of all families partition the (distinct) blocks;
+   every member's header is an instance of its family's header (through the matcher, whose
+   soundness gives `equivb (apply theta family) member`); every key is the re-expression
+   of a bound of every member; every row cell is the member's own binding or a wildcard;
+   no row generalises another *)
+Theorem C11_grouping_invariants : forall blocks gs, gi_check blocks gs = true ->
+  NoDup (flat_map g_members gs) /\
+  (forall b, In b blocks -> In (first_index blocks b) (flat_map g_members gs)) /\
+  (forall m, In m (flat_map g_members gs) -> m < List.length blocks) /\
+  Forall (group_inv blocks) gs.
+Proof. exact gi_check_sound. Qed.
+Print Assumptions C11_grouping_invariants.
+
+Example C11_nonvacuous :
+  match parse_groups ex_grouping with
+  | Some gs => gi_check ex_blocks gs = true /\ List.length gs = 2 /\
+               map g_members gs = [[0; 2]; [1]]
+  | None => False
+  end.
+Proof. vm_compute. repeat split. Qed.
+Print Assumptions C11_nonvacuous.
